@@ -347,6 +347,35 @@ func vfGenProdCase(t *rapid.T, emph string) *vfProdCase {
 	}
 	vfGenScript(t, c, gates)
 	vfGenDelays(t, c)
+	if emph == "C17" {
+		// routing only: static leaderless subsets, every partitioner incl. misbehaving custom ones, no faults
+		for ti := range c.Topics {
+			mode := rapid.IntRange(0, 5).Draw(t, fmt.Sprintf("leaderless%d", ti))
+			for p := range c.Topics[ti].Leaders {
+				if mode == 0 || (mode <= 2 && rapid.Bool().Draw(t, fmt.Sprintf("noLeader%d.%d", ti, p))) {
+					c.Topics[ti].Leaders[p] = -1
+				}
+			}
+		}
+		c.Conf.Partitioner = rapid.SampledFrom([]string{"manual", "hash", "refhash", "roundrobin", "random", "bad", "bad"}).Draw(t, "c17partitioner")
+		c.Conf.Idempotent = false
+		if c.Conf.Acks == 0 {
+			c.Conf.Acks = 1
+		}
+		for i := range c.Msgs {
+			m := &c.Msgs[i]
+			n := int32(len(c.Topics[m.Topic].Leaders))
+			m.Part = int32(rapid.IntRange(0, int(n)-1).Draw(t, fmt.Sprintf("c17m%d.part", i)))
+			if c.Conf.Partitioner == "bad" {
+				m.Part = rapid.SampledFrom([]int32{-1, n, n + 5, 1 << 30, 0, n - 1, -1 << 31}).Draw(t, fmt.Sprintf("c17m%d.bad", i))
+				m.BadErr = rapid.IntRange(0, 4).Draw(t, fmt.Sprintf("c17m%d.err", i)) == 0
+			}
+		}
+		c.Faults = map[string][]vfFault{}
+		c.Script = []vfStep{{Op: "send", A: 0, B: len(c.Msgs)}, {Op: "waitOutcomes", A: len(c.Msgs)}}
+		c.Conf.RetryMax = rapid.IntRange(0, 1).Draw(t, "c17retry")
+		c.Conf.BackoffUs = 0
+	}
 	if emph == "C18" {
 		kinds := []string{"mut", "count", "panic"}
 		if vfVersionAtLeast(c.Conf.Version, "0.11.0.0") {
